@@ -3,9 +3,9 @@ CONSTANTS
   Keys = {1, 2}
   Vals = {1, 2}
   MaxChain = 2
-  MaxWrites = 6
+  MaxWrites = 5
   MaxReopens = 1
-  DevStaleStamp = FALSE
+  DevStaleStamp = TRUE
   DevF7 = FALSE
 INVARIANTS TypeOK ReopenSeesPersisted ChainMatchesFile ChainBounded AgesOK MemoryCoversFile FilterSound
 PROPERTIES PersistIsCurrent
